@@ -17,7 +17,7 @@ pub struct Profile {
     pub variants: fn(&str, Tier) -> Vec<&'static str>,
     pub alphabet: fn(&str, &str, Tier) -> Alphabet,
     pub depth: fn(&str, &str, Tier) -> usize,
-    pub boot: fn(&str, Tier) -> BootCfg,
+    pub boot: fn(&str, &str, Tier) -> BootCfg,
     /// which failure classes (signature prefixes) are violations of *this* property
     pub owns: fn(&str) -> bool,
     /// which programs count as non-trivial for this property
@@ -151,11 +151,11 @@ pub fn child(profile: &Profile, args: &[String]) -> ! {
     let tier = if args.get(1).map(|s| s.as_str()) == Some("thorough") { Tier::Thorough } else { Tier::Quick };
     install_crash_handlers();
     let _ = crate::common::WORKER_PANIC_HANDLER.set(Box::new(worker_panic_to_crash));
-    let cfg = (profile.boot)(plan, tier);
+    let variant = args.get(3).map(|s| s.as_str()).unwrap_or("");
+    let cfg = (profile.boot)(plan, variant, tier);
     set_current_case(&json!({"plan": plan, "program": "boot"}));
     let mut w = World::boot(cfg.clone());
     let mut sub = Run::new(profile.id, tier);
-    let variant = args.get(3).map(|s| s.as_str()).unwrap_or("");
     let alphabet = (profile.alphabet)(plan, variant, tier);
     let depth = (profile.depth)(plan, variant, tier);
     let label = if variant.is_empty() { plan.to_string() } else { format!("{}/{}", plan, variant) };
